@@ -139,6 +139,12 @@ CLAIMED.update({
          LEDGER_NOTE + " Only method authorization of a native resource manager (role rule + owner fallback); function auth, the global-caller rule, nested component auth zones and explicit assert_access_rule are not generated.", "5 C08"),
 })
 
+CLAIMED.update({
+ "C38": ("exploration", "deterministic simulation with fault injection: the generated worktop / bucket / proof programs of the programs world (boundary amounts, invalid lifecycles, fee locked on the faucet component or on the own account) over evolving account states are passed through StaticResourceMovementsVisitor and executed on the real engine; analyser output compared with the accounts' own withdraw / deposit events of the receipt",
+         "For every accepted and successfully executed manifest: per account and resource the withdrawals equal the analyser's (exact) withdrawals and the deposits lie within the summed per-deposit bounds; a resource not mentioned by any deposit of an account without unspecified resources is not deposited there. Non-fungibles by count only.",
+         PROG_NOTE + " Only V1 manifests over account withdraw / deposit methods, worktop instructions and assertions; no component calls returning unknown buckets other than the faucet's lock_fee, no V2 assertions, ids of non-fungibles are not compared.", "5 C38"),
+})
+
 PURE = "pure function of one input value: no schedule, clock, I/O, fault or history for a simulator to own (DESIGN section 6)"
 NOT_APPLICABLE = {
  "C16": "key mapping is a pure bijection on keys; " + PURE,
